@@ -82,3 +82,17 @@ def bv_permute(den, f, perm):
         bits.append(z3.Extract(b, b, f))
     # Concat takes most significant first
     return z3.Concat(*reversed(bits)) if len(bits) > 1 else bits[0]
+
+
+def bv_embed(f, Ls, Lt, perm):
+    """Truth table over Lt target levels of the function whose table over Ls
+    source levels is f, where the variable at source level i sits at target
+    level perm[i] (target levels not in perm are don't-care)."""
+    bits = []
+    for a in range(2 ** Lt):
+        b = 0
+        for i in range(Ls):
+            if (a >> perm[i]) & 1:
+                b |= 1 << i
+        bits.append(z3.Extract(b, b, f))
+    return z3.Concat(*reversed(bits)) if len(bits) > 1 else bits[0]
